@@ -105,6 +105,10 @@ func ruleHybridFlagTables(r *Run, k *hybridKind, rule string) {
 
 	// ---------------------------------------------------------------- add routine
 	fn := k.AddInt
+	// the payload parameters by type (their order is the helper's own business)
+	mods[0].payload = paramOfType(fn, 2, "[]float32")
+	mods[1].payload = paramOfType(fn, 3, "string")
+	mods[2].payload = paramOfType(fn, 4, "map[string]interface{}", "map[string]any")
 	name := w.Name(fn)
 	r.Analysed(name)
 	c := NewCanon(w)
